@@ -75,6 +75,12 @@ def madgwick_mag0(h):
     cfg = _config(f)
     _ok(h, 'updateMARG(mag=0)', lambda: f.updateMARG(q.copy(), g.copy(), a.copy(), Z.copy()))
     _config_unchanged(h, 'Madgwick after updateMARG(mag=0)', f, cfg)
+    # the skipped correction leaves the IMU step, with the caller's time step
+    dt = h.real('dt', 0.001, 0.1)
+    for tag, mk in (('Madgwick', lambda: flt.Madgwick(gain=0.2)), ('Mahony', lambda: flt.Mahony())):
+        o1 = np.array(mk().updateMARG(q.copy(), g.copy(), a.copy(), Z.copy(), dt=dt))
+        o2 = np.array(mk().updateIMU(q.copy(), g.copy(), a.copy(), dt=dt))
+        h.check(f'{tag}.updateMARG(mag=0, dt) == {tag}.updateIMU(dt): the same step with the time step given', h.eq(o1, o2))
 
 
 @harness('C13/Mahony', functions=[FF + 'mahony:Mahony.updateIMU', FF + 'mahony:Mahony.updateMARG'], max_paths=32)
